@@ -132,6 +132,17 @@ def make_law(sub_obj, law_name, compliance, k, d, lref, holder):
 def element_outputs(inter, law, law_name, compliance, t, q, u, internal, lac):
     """everything the interaction and the element report at (t, q, u), as dense arrays; q, u in the interaction's local order"""
     nq, nu = len(q), len(u)
+    # prelude (results discarded): a sibling instance of the interaction's class on the same subsystems is asked at the same (t, q, u), and the
+    # interaction itself at the same (q, u) at another time -- neither may leave anything behind that changes the values recorded next
+    sib = getattr(inter, "_vf_sibling", None)
+    for obj_, tt in ((inter, t - 0.375), (inter, t + 1.0), (sib, t)):      # the sibling last: nothing is called between it and the record
+        if obj_ is None:
+            continue
+        for name, args in ((("l", (tt, q)),) if not hasattr(obj_, "n_full_rotations") else ()) + (("l_q", (tt, q)), ("l_dot", (tt, q, u)), ("l_dot_q", (tt, q, u)), ("l_dot_u", (tt, q, u)), ("W_l", (tt, q)), ("W_l_q", (tt, q))):      # (the tracked angle of a Revolute joint is history dependent by design: not asked here)
+            try:
+                getattr(obj_, name)(*[a.copy() if isinstance(a, np.ndarray) else a for a in args])
+            except Exception:
+                pass
     o = dict(l=float(inter.l(t, q.copy())), ldot=float(inter.l_dot(t, q.copy(), u.copy())), W=np.asarray(inter.W_l(t, q.copy())).reshape(nu),
              lq=np.asarray(inter.l_q(t, q.copy())).reshape(nq), ldotq=np.asarray(inter.l_dot_q(t, q.copy(), u.copy())).reshape(nq),
              ldotu=np.asarray(inter.l_dot_u(t, q.copy(), u.copy())).reshape(nu), Wq=np.asarray(inter.W_l_q(t, q.copy())).reshape(nu, nq))
@@ -257,6 +268,13 @@ def two_point_case(ctx, rng, quats, kinds, law_name, compliance, records, wheres
         system.add(tpi)
     system.add(law)
     assemble(system)
+    # a sibling interaction between the same subsystems (other points): it sees the same local (t, q) and is evaluated right before every record
+    try:
+        sib = TwoPointInteraction(subs[0].obj, subs[1].obj, B_r_CP1=B[0] + np.array([0.5, -1.0, 0.25]), B_r_CP2=B[1] + np.array([-0.75, 0.5, 1.0]))
+        sib.assembler_callback()
+        tpi._vf_sibling = sib
+    except Exception:
+        pass
     n = 0
     first = None
     for _ in range(nstates):
